@@ -13,6 +13,18 @@
 // zeros, upper case, prefixes and suffixes, then the renderings of the value lattice.  Views are
 // handed to tetl as exact-size heap blocks without terminator (mc::GuardedBlock), C strings as
 // exact-size terminated blocks, so a read past the input is an ASan report in the `san` flavour.
+//
+// Round 2 widening:
+//   * a second short-string sweep over a 24-character "exotic" alphabet: embedded NUL, bytes >= 0x80
+//     (0x80, 0xff and the digit look-alikes '1'+0x80, 'a'+0x80), \v \f \r \n, and the neighbours of the
+//     digit/letter ranges  / : @ [ ` {  next to 1 0 9 a z Z - + space;
+//   * per base b the strings over {digit b-1, digit b (both cases), 1, 0, -, / : @ `} (digit 36 = '{' / '[');
+//   * limit/lattice images and the boundary strings for every base 2..36 in the quick tier as well;
+//   * char8_t / char16_t / char32_t / wchar_t through from_chars and to_integer (reference: the standard
+//     integer type of the same width and signedness); a bool probe (must be rejected like std);
+//   * "parse-ro" jobs: the input lies flush against the end of a PROT_READ page that is followed by a
+//     PROT_NONE page, so a write to the input or a read past it traps in every flavour;
+//   * after every call the input bytes are compared with what was handed in.
 #include "mc.hpp"
 
 #include <etl/charconv.hpp>
@@ -29,6 +41,9 @@
 #include <set>
 #include <string>
 #include <type_traits>
+
+#include <signal.h>
+#include <sys/mman.h>
 
 using mc::cat;
 
@@ -67,8 +82,29 @@ char const* tname()
     if constexpr (std::is_same_v<T, unsigned long>) { return "unsigned long"; }
     if constexpr (std::is_same_v<T, long long>) { return "long long"; }
     if constexpr (std::is_same_v<T, unsigned long long>) { return "unsigned long long"; }
+    if constexpr (std::is_same_v<T, char8_t>) { return "char8_t"; }
+    if constexpr (std::is_same_v<T, char16_t>) { return "char16_t"; }
+    if constexpr (std::is_same_v<T, char32_t>) { return "char32_t"; }
+    if constexpr (std::is_same_v<T, wchar_t>) { return "wchar_t"; }
     return "?";
 }
+
+/// char8_t, char16_t, char32_t and wchar_t have no std::from_chars overload: the reference parses into
+/// the standard integer type of the same width and signedness (what the value of such a type is)
+template <typename T>
+inline constexpr bool is_charlike = std::is_same_v<T, char8_t> || std::is_same_v<T, char16_t> || std::is_same_v<T, char32_t> || std::is_same_v<T, wchar_t>;
+template <typename T, bool = is_charlike<T>>
+struct ref_type {
+    using type = T;
+};
+template <typename T>
+struct ref_type<T, true> {
+    using type = std::conditional_t<std::is_signed_v<T>, std::make_signed_t<T>, std::make_unsigned_t<T>>;
+};
+template <typename T>
+using ref_t = typename ref_type<T>::type;
+static_assert(sizeof(ref_t<char16_t>) == sizeof(char16_t) && std::is_unsigned_v<ref_t<char16_t>>);
+static_assert(sizeof(ref_t<wchar_t>) == sizeof(wchar_t) && std::is_signed_v<ref_t<wchar_t>> == std::is_signed_v<wchar_t>);
 
 template <typename T>
 std::string show_val(T v)
@@ -100,12 +136,68 @@ inline std::string show_off(char const* p, char const* base, std::size_t n)
     return std::to_string(d);
 }
 
+/// fault address of the last SIGSEGV (parse-ro jobs install ro_segv in front of mc's handler)
+inline void* volatile g_faultAddr = nullptr;
+inline void ro_segv(int sig, siginfo_t* si, void* /*ctx*/)
+{
+    g_faultAddr = si != nullptr ? si->si_addr : nullptr;
+    mc::on_signal(sig);
+}
+
+/// one PROT_READ page followed by one PROT_NONE page; the installed bytes end exactly at the page end
+struct RoMap {
+    std::size_t page{static_cast<std::size_t>(sysconf(_SC_PAGESIZE))};
+    char* base{nullptr};
+    std::string held;
+    bool valid{false};
+
+    RoMap()
+    {
+        void* p = mmap(nullptr, 2 * page, PROT_READ | PROT_WRITE, MAP_PRIVATE | MAP_ANONYMOUS, -1, 0);
+        if (p == MAP_FAILED) {
+            std::perror("mmap");
+            std::_Exit(73);
+        }
+        base = static_cast<char*>(p);
+        std::memset(base, 0xCD, page);
+        if (mprotect(base + page, page, PROT_NONE) != 0 || mprotect(base, page, PROT_READ) != 0) {
+            std::perror("mprotect");
+            std::_Exit(73);
+        }
+    }
+    RoMap(RoMap const&)            = delete;
+    RoMap& operator=(RoMap const&) = delete;
+    ~RoMap() { munmap(base, 2 * page); }
+
+    /// the page is read-only between two calls, so identical bytes need not be installed again
+    char const* install(char const* p, std::size_t n)
+    {
+        if (!valid || held.size() != n || std::memcmp(held.data(), p, n) != 0) {
+            if (mprotect(base, page, PROT_READ | PROT_WRITE) != 0) { std::_Exit(73); }
+            std::memcpy(base + page - n, p, n);
+            if (mprotect(base, page, PROT_READ) != 0) { std::_Exit(73); }
+            held.assign(p, n);
+            valid = true;
+        }
+        return base + page - n;
+    }
+    /// 1 = inside the read-only page (a write), 2 = inside the guard page (a read or write past the end)
+    int where(void const* a) const
+    {
+        auto const* c = static_cast<char const*>(a);
+        if (c >= base && c < base + page) { return 1; }
+        if (c >= base + page && c < base + 2 * page) { return 2; }
+        return 0;
+    }
+};
+
 // exact-size input blocks, one per length, reused
 struct InPool {
     static constexpr std::size_t maxLen = 96;
     std::vector<std::unique_ptr<mc::GuardedBlock<char>>> views; // [len]   not terminated
     std::vector<std::unique_ptr<mc::GuardedBlock<char>>> zs;    // [len+1] terminated
     mc::GuardedBlock<char> edge{8};
+    std::unique_ptr<RoMap> roView, roZ; // parse-ro jobs
 
     InPool()
     {
@@ -114,16 +206,30 @@ struct InPool {
             zs.push_back(std::make_unique<mc::GuardedBlock<char>>(i + 1));
         }
     }
+    void read_only()
+    {
+        roView = std::make_unique<RoMap>();
+        roZ    = std::make_unique<RoMap>();
+    }
     char const* view(std::string const& s)
     {
+        if (roView) { return roView->install(s.data(), s.size()); } // empty: the first byte of the guard page
         if (s.empty()) { return edge.end(); } // empty range at the very end of an allocation
         std::memcpy(views[s.size()]->data(), s.data(), s.size());
         return views[s.size()]->data();
     }
     char const* z(std::string const& s)
     {
+        if (roZ) { return roZ->install(s.c_str(), s.size() + 1); }
         std::memcpy(zs[s.size()]->data(), s.c_str(), s.size() + 1);
         return zs[s.size()]->data();
+    }
+    /// kind of the last fault: 1 write into a read-only input, 2 access past its end, 0 elsewhere
+    int fault_kind() const
+    {
+        if (!roView) { return 0; }
+        int const a = roView->where(g_faultAddr);
+        return a != 0 ? a : roZ->where(g_faultAddr);
     }
 };
 
@@ -208,6 +314,14 @@ struct ParseChecker {
     std::string const S_TI_END{"strings::to_integer(str,base):end"};
     std::string const S_TN_VAL{"strings::to_integer<check_overflow=false>(str,base):error+value"};
     std::string const S_TN_END{"strings::to_integer<check_overflow=false>(str,base):end"};
+    std::string const S_INPUT{"parsers: input range left unmodified"};
+    std::string const S_RESULT{"parsers: a result for every valid input"};
+    using Ref = ref_t<T>; // type the reference parses into
+    std::uint64_t withNul{0};
+    static constexpr int maxTraps = 64;
+    int trapCount{0};
+    std::uint64_t notCalled{0};
+    bool readOnly{false}; // parse-ro jobs: the same cases as the other jobs in another placement
     bool wFC, wTI, wTN;
     Subj sStrto, sSto, sAto;
     int outcomeBase{10};
@@ -225,16 +339,22 @@ struct ParseChecker {
         , sSto(rep, sto_name<T>(), "(str,pos,base):value", "(str,pos,base):pos", nullptr)
         , sAto(rep, ato_name<T>(), "(str)", nullptr, nullptr)
     {
+        // the two cross-function subjects need every function
+        if (!rep.only.empty() && (rep.want(S_INPUT) || rep.want(S_RESULT))) { wFC = wTI = wTN = sStrto.want = sSto.want = sAto.want = true; }
     }
 
     std::string kase(std::string const& s, int base) const { return cat(T_, " str=", show(s), " base=", base); }
 
-    void san_check(std::string const& subj, std::string const& cls, std::string const& s, int base)
+    /// after every call: no sanitizer report, and the input bytes [in, in+n) are what was handed in
+    void san_check(std::string const& subj, std::string const& cls, std::string const& s, int base, char const* in = nullptr, std::size_t n = 0)
     {
         auto const now = mc::san_hits();
         if (now != san) {
             san = now;
             VIOL(r, "C02", subj, cls, kase(s, base), "ASan/UBSan report during the call: read outside the input range (see job log)");
+        }
+        if (in != nullptr && n != 0 && std::memcmp(in, s.c_str(), n) != 0) {
+            VIOL(r, "C10", S_INPUT, cls, kase(s, base), cat(subj, " changed its input: now ", mc::show_chars(in, in + n)));
         }
     }
 
@@ -249,7 +369,7 @@ struct ParseChecker {
     void from_chars_case(std::string const& s, int base)
     {
         std::size_t const n = s.size();
-        T mv                = T(42);
+        Ref mv              = Ref(42);
         T ev                = T(42);
         auto const mr       = std::from_chars(s.data(), s.data() + n, mv, base);
         int const mec       = code(mr.ec);
@@ -261,14 +381,14 @@ struct ParseChecker {
         evals += 2;
         if (mec == 0) { ++nontrivial; }
         if (base == outcomeBase) { r.outcome(mc::hash_mix(mc::hash_mix(static_cast<std::uint64_t>(mec), static_cast<std::uint64_t>(mv)), static_cast<std::uint64_t>(mr.ptr - s.data()))); }
-        if (mec != eec || mv != ev) {
+        if (mec != eec || mv != static_cast<Ref>(ev)) {
             VIOL(r, "C10", S_FC_VAL, cls, kase(s, base),
                 cat("tetl: ec=", code_name(eec), " value", eec == 0 ? "=" : " left at ", show_val(ev), " | std: ec=", code_name(mec), " value", mec == 0 ? "=" : " left at ", show_val(mv),
                     " (value preset to 42)"));
         }
         auto const moff = static_cast<std::size_t>(mr.ptr - s.data());
         if (er.ptr != v + moff) { VIOL(r, "C10", S_FC_PTR, cls, kase(s, base), cat("tetl: ptr=first+", show_off(er.ptr, v, n), " | std: ptr=first+", moff)); }
-        san_check(S_FC_VAL, cls, s, base);
+        san_check(S_FC_VAL, cls, s, base, v, n);
     }
 
     void to_integer_case(std::string const& s, int base)
@@ -276,7 +396,7 @@ struct ParseChecker {
         std::size_t const n = s.size();
         std::size_t w       = 0;
         while (w < n && c_space(s[w])) { ++w; }
-        T mv            = T(0);
+        Ref mv          = Ref(0);
         auto const mr   = std::from_chars(s.data() + w, s.data() + n, mv, base);
         int const mec   = code(mr.ec);
         char const* cls = view_class(mec, s, w);
@@ -287,13 +407,13 @@ struct ParseChecker {
             auto const er = etl::strings::to_integer<T>(etl::string_view{v, n}, static_cast<T>(base));
             int const eec = code(er.error);
             ++evals;
-            if (mec != eec || (mec == 0 && mv != er.value)) {
+            if (mec != eec || (mec == 0 && mv != static_cast<Ref>(er.value))) {
                 VIOL(r, "C10", S_TI_VAL, cls, kase(s, base),
                     cat("tetl: error=", code_name(eec), " value=", show_val(er.value), " | reference (skip whitespace, std::from_chars): ", code_name(mec), mec == 0 ? cat(" value=", show_val(mv)) : std::string()));
             }
             // on failure tetl documents end == begin (its own convention): not compared
             if (mec == 0 && eec == 0 && er.end != v + moff) { VIOL(r, "C10", S_TI_END, cls, kase(s, base), cat("tetl: end=begin+", show_off(er.end, v, n), " | reference: begin+", moff)); }
-            san_check(S_TI_VAL, cls, s, base);
+            san_check(S_TI_VAL, cls, s, base, v, n);
         }
         if (wTN && mec != 2) {
             subject            = S_TN_VAL;
@@ -301,12 +421,12 @@ struct ParseChecker {
             auto const er      = etl::strings::to_integer<T, opt>(etl::string_view{v, n}, static_cast<T>(base));
             int const eec      = code(er.error);
             ++evals;
-            if (mec != eec || (mec == 0 && mv != er.value)) {
+            if (mec != eec || (mec == 0 && mv != static_cast<Ref>(er.value))) {
                 VIOL(r, "C10", S_TN_VAL, cls, kase(s, base),
                     cat("tetl: error=", code_name(eec), " value=", show_val(er.value), " | reference (skip whitespace, std::from_chars): ", code_name(mec), mec == 0 ? cat(" value=", show_val(mv)) : std::string()));
             }
             if (mec == 0 && eec == 0 && er.end != v + moff) { VIOL(r, "C10", S_TN_END, cls, kase(s, base), cat("tetl: end=begin+", show_off(er.end, v, n), " | reference: begin+", moff)); }
-            san_check(S_TN_VAL, cls, s, base);
+            san_check(S_TN_VAL, cls, s, base, v, n);
         }
     }
 
@@ -335,7 +455,7 @@ struct ParseChecker {
         if (eend != z + moff) { VIOL(r, "C10", S_END, cls, kase(s, base), cat("tetl: last=str+", show_off(eend, z, s.size()), " | libc: str+", moff)); }
         R const ev2 = ef(z, nullptr, base);
         if (mv != ev2) { VIOL(r, "C10", S_NUL, cls, kase(s, base), cat("tetl: ", show_val(ev2), " | libc: ", show_val(mv), range ? " (ERANGE)" : "")); }
-        san_check(S_VAL, cls, s, base);
+        san_check(S_VAL, cls, s, base, z, s.size() + 1);
     }
 
     template <typename R, typename MF, typename EF>
@@ -377,7 +497,7 @@ struct ParseChecker {
         ++nontrivial;
         if (mv != ev) { VIOL(r, "C10", S_VAL, cls, kase(s, base), cat("tetl: ", show_val(ev), " | std: ", show_val(mv))); }
         if (mpos != epos) { VIOL(r, "C10", S_POS, cls, kase(s, base), cat("tetl: pos=", epos, " | std: pos=", mpos)); }
-        san_check(S_VAL, cls, s, base);
+        san_check(S_VAL, cls, s, base, v, s.size());
     }
 
     template <typename R, typename MF, typename EF>
@@ -400,7 +520,7 @@ struct ParseChecker {
         R const ev      = ef(z);
         evals += 2;
         if (mv != ev) { VIOL(r, "C10", S_VAL, cls, kase(s, 10), cat("tetl: ", show_val(ev), " | libc: ", show_val(mv))); }
-        san_check(S_VAL, cls, s, 10);
+        san_check(S_VAL, cls, s, 10, z, s.size() + 1);
     }
 
     void one(std::string const& s, int base)
@@ -408,29 +528,31 @@ struct ParseChecker {
         curS    = &s;
         curBase = base;
         if (wFC) { from_chars_case(s, base); }
-        if constexpr (!std::is_same_v<T, char>) {
-            if (wTI || wTN) { to_integer_case(s, base); }
-        }
+        if (wTI || wTN) { to_integer_case(s, base); } // round 2: also for plain char
+        // the C-string functions stop at an embedded NUL: that prefix is itself a string of the sweep and
+        // is called there in an exact-size block; std::sto*(std::string) stops there too (it parses c_str())
+        bool const nul = s.find('\0') != std::string::npos;
+        if (nul) { ++withNul; }
         if constexpr (std::is_same_v<T, int>) {
             sto_case<int>([](std::string const& a, std::size_t* p, int b) { return std::stoi(a, p, b); }, [](etl::string_view a, etl::size_t* p, int b) { return etl::stoi(a, p, b); }, s, base);
-            if (base == 10) { ato_case<int>([](char const* a) { return std::atoi(a); }, [](char const* a) { return etl::atoi(a); }, s); }
+            if (base == 10 && !nul) { ato_case<int>([](char const* a) { return std::atoi(a); }, [](char const* a) { return etl::atoi(a); }, s); }
         }
         if constexpr (std::is_same_v<T, long>) {
-            strto_case<long>([](char const* a, char** e, int b) { return std::strtol(a, e, b); }, [](char const* a, char const** e, int b) { return etl::strtol(a, e, b); }, s, base);
+            if (!nul) { strto_case<long>([](char const* a, char** e, int b) { return std::strtol(a, e, b); }, [](char const* a, char const** e, int b) { return etl::strtol(a, e, b); }, s, base); }
             sto_case<long>([](std::string const& a, std::size_t* p, int b) { return std::stol(a, p, b); }, [](etl::string_view a, etl::size_t* p, int b) { return etl::stol(a, p, b); }, s, base);
-            if (base == 10) { ato_case<long>([](char const* a) { return std::atol(a); }, [](char const* a) { return etl::atol(a); }, s); }
+            if (base == 10 && !nul) { ato_case<long>([](char const* a) { return std::atol(a); }, [](char const* a) { return etl::atol(a); }, s); }
         }
         if constexpr (std::is_same_v<T, long long>) {
-            strto_case<long long>([](char const* a, char** e, int b) { return std::strtoll(a, e, b); }, [](char const* a, char const** e, int b) { return etl::strtoll(a, e, b); }, s, base);
+            if (!nul) { strto_case<long long>([](char const* a, char** e, int b) { return std::strtoll(a, e, b); }, [](char const* a, char const** e, int b) { return etl::strtoll(a, e, b); }, s, base); }
             sto_case<long long>([](std::string const& a, std::size_t* p, int b) { return std::stoll(a, p, b); }, [](etl::string_view a, etl::size_t* p, int b) { return etl::stoll(a, p, b); }, s, base);
-            if (base == 10) { ato_case<long long>([](char const* a) { return std::atoll(a); }, [](char const* a) { return etl::atoll(a); }, s); }
+            if (base == 10 && !nul) { ato_case<long long>([](char const* a) { return std::atoll(a); }, [](char const* a) { return etl::atoll(a); }, s); }
         }
         if constexpr (std::is_same_v<T, unsigned long>) {
-            strto_case<unsigned long>([](char const* a, char** e, int b) { return std::strtoul(a, e, b); }, [](char const* a, char const** e, int b) { return etl::strtoul(a, e, b); }, s, base);
+            if (!nul) { strto_case<unsigned long>([](char const* a, char** e, int b) { return std::strtoul(a, e, b); }, [](char const* a, char const** e, int b) { return etl::strtoul(a, e, b); }, s, base); }
             sto_case<unsigned long>([](std::string const& a, std::size_t* p, int b) { return std::stoul(a, p, b); }, [](etl::string_view a, etl::size_t* p, int b) { return etl::stoul(a, p, b); }, s, base);
         }
         if constexpr (std::is_same_v<T, unsigned long long>) {
-            strto_case<unsigned long long>([](char const* a, char** e, int b) { return std::strtoull(a, e, b); }, [](char const* a, char const** e, int b) { return etl::strtoull(a, e, b); }, s, base);
+            if (!nul) { strto_case<unsigned long long>([](char const* a, char** e, int b) { return std::strtoull(a, e, b); }, [](char const* a, char const** e, int b) { return etl::strtoull(a, e, b); }, s, base); }
             sto_case<unsigned long long>([](std::string const& a, std::size_t* p, int b) { return std::stoull(a, p, b); }, [](etl::string_view a, etl::size_t* p, int b) { return etl::stoull(a, p, b); }, s, base);
         }
     }
@@ -438,20 +560,35 @@ struct ParseChecker {
     /// one guarded batch: one string, every base
     void str(std::string const& s, std::vector<int> const& bases)
     {
+        if (trapCount >= maxTraps) {
+            ++notCalled; // every further call would trap as well (and mc.hpp ends a job after 20000 signals)
+            return;
+        }
         mc::Trap const t = mc::guarded([&] {
             for (int b : bases) { one(s, b); }
         });
         if (t != mc::Trap::none) {
+            if (++trapCount == maxTraps) { r.not_exhaustive(cat("stopped calling after ", maxTraps, " traps")); }
             bool const contract = t == mc::Trap::assert_fired;
-            VIOL(r, contract ? "C05" : "C02", subject, cat("trap/", mc::trap_name(t)), kase(curS != nullptr ? *curS : std::string("?"), curBase), mc::describe_trap(t));
+            auto const k        = kase(curS != nullptr ? *curS : std::string("?"), curBase);
+            int const fault     = t == mc::Trap::crash ? pool.fault_kind() : 0;
+            std::string const what = fault == 1   ? cat(subject, ": write into its input (the input lies in a read-only page): ", mc::describe_trap(t))
+                                     : fault == 2 ? cat(subject, ": access past the end of its input (the input ends at a page boundary, the next page is inaccessible): ", mc::describe_trap(t))
+                                                  : cat(subject, ": ", mc::describe_trap(t));
+            VIOL(r, contract ? "C05" : "C02", subject, cat("trap/", mc::trap_name(t)), k, what);
+            // no result for a valid input: the functional property fails as well
+            VIOL(r, "C10", fault == 1 ? S_INPUT : S_RESULT, cat("trap/", mc::trap_name(t)), k, what);
         }
     }
 
     void finish()
     {
         r.count("evaluations", evals);
-        r.count("distinct_nontrivial", nontrivial);
+        // the read-only placement repeats cases of the other jobs: not counted as distinct again
+        r.count(readOnly ? "readonly_placement_successful_parses" : "distinct_nontrivial", nontrivial);
         r.count("skipped_reference_throws_or_undefined", skipped);
+        r.count("strings_with_embedded_nul_x_base", withNul);
+        r.count("strings_not_called_after_64_traps", notCalled);
     }
 };
 
@@ -465,8 +602,8 @@ constexpr std::size_t alphaN = sizeof alphabet;
 constexpr char alphabet8[] = {'1', '0', '9', 'a', '-', '+', ' ', 'x'};
 
 /// calls f(s) for every string over the alphabet with minLen <= length <= maxLen, shortest first
-template <std::size_t N, typename F>
-bool for_each_string(char const (&alpha)[N], int minLen, int maxLen, F&& f)
+template <typename F>
+bool for_each_string_n(char const* alpha, std::size_t N, int minLen, int maxLen, F&& f)
 {
     std::string s;
     if (minLen == 0 && !f(s)) { return false; }
@@ -492,21 +629,53 @@ bool for_each_string(char const (&alpha)[N], int minLen, int maxLen, F&& f)
     return true;
 }
 
+template <std::size_t N, typename F>
+bool for_each_string(char const (&alpha)[N], int minLen, int maxLen, F&& f)
+{
+    return for_each_string_n(alpha, N, minLen, maxLen, f);
+}
+
 template <typename F>
 bool for_each_short_string(int maxLen, F&& f)
 {
     return for_each_string(alphabet, 0, maxLen, f);
 }
 
-inline bool in_short_pool(std::string const& s, int maxLen)
+inline bool in_pool_n(std::string const& s, char const* alpha, std::size_t N, int maxLen)
 {
     if (static_cast<int>(s.size()) > maxLen) { return false; }
     for (char c : s) {
         bool found = false;
-        for (char a : alphabet) { found = found || a == c; }
+        for (std::size_t i = 0; i < N; ++i) { found = found || alpha[i] == c; }
         if (!found) { return false; }
     }
     return true;
+}
+
+inline bool in_short_pool(std::string const& s, int maxLen) { return in_pool_n(s, alphabet, alphaN, maxLen); }
+
+// round 2: the characters a digit classifier can get wrong.  Embedded NUL, bytes >= 0x80 (as char they
+// are negative: 0x80, 0xff, and '1'+0x80 / 'a'+0x80, which a classifier that masks bit 7 takes for digits),
+// the four C-locale whitespace characters the first alphabet lacks, and the direct neighbours of the
+// ranges 0-9, A-Z, a-z:  '/' ':' '@' '[' '`' '{'
+constexpr char exotic[] = {'1', '0', '9', 'a', 'z', 'Z', '-', '+', ' ', '\0', '\x80', '\xff', '\xb1', '\xe1', '\v', '\f', '\r', '\n', ':', '[', '{', '/', '@', '`'};
+constexpr std::size_t exoticN = sizeof exotic;
+static_assert(exoticN == 24);
+
+inline bool in_exotic_pool(std::string const& s, int maxLen) { return in_pool_n(s, exotic, exoticN, maxLen); }
+
+/// character of digit value d (0..36): 36 is the character behind 'z' / 'Z'
+inline char digit_char(int d, bool upper) { return static_cast<char>(d < 10 ? '0' + d : (upper ? 'A' : 'a') + d - 10); }
+
+/// alphabet of the base-boundary sweep of base b: the largest digit and the first non-digit in both
+/// letter cases, 1, 0, minus and the neighbours of the digit/letter ranges
+inline std::string boundary_alphabet(int base)
+{
+    std::string a;
+    for (char c : {digit_char(base - 1, false), digit_char(base - 1, true), digit_char(base, false), digit_char(base, true), '1', '0', '-', '/', ':', '@', '`'}) {
+        if (a.find(c) == std::string::npos) { a.push_back(c); }
+    }
+    return a;
 }
 
 inline std::string render(i128 mag, int base, bool upper)
@@ -635,6 +804,75 @@ std::vector<int> bases_for(bool all)
     return b;
 }
 
+/// limit images and lattice renderings of every base in `bases`, each parsed in its own base
+template <typename T>
+bool images(mc::Reporter& r, ParseChecker<T>& pc, std::vector<int> const& bases, long window, int shortLen, bool sample)
+{
+    using Lim            = ref_t<T>;
+    std::uint64_t images = 0;
+    bool complete        = true;
+    for (int b : bases) {
+        std::vector<int> const one{b};
+        auto const li = limit_images<Lim>(b, shortLen);
+        for (auto const& s : li) { pc.str(s, one); }
+        auto const la = lattice_images<Lim>(b, window, shortLen);
+        for (auto const& s : la) { pc.str(s, one); }
+        images += li.size() + la.size();
+        if (sample && (b == 10 || b == 36)) { r.sample(cat(tname<T>(), " base ", b, ": ", li.size(), " limit images e.g. ", show(li[li.size() / 2]), ", ", la.size(), " lattice renderings e.g. ", show(la.back()))); }
+        if (r.deadline_passed()) {
+            r.not_exhaustive("deadline");
+            complete = false;
+            break;
+        }
+    }
+    r.count("limit_and_lattice_strings", images);
+    return complete;
+}
+
+/// per base b: every string of length <= maxLen over boundary_alphabet(b), parsed in base b
+template <typename T>
+bool boundary_strings(mc::Reporter& r, ParseChecker<T>& pc, std::vector<int> const& bases, int maxLen, int shortLen, int exoticLen)
+{
+    std::uint64_t strs = 0;
+    bool complete      = true;
+    for (int b : bases) {
+        std::vector<int> const one{b};
+        std::string const alpha = boundary_alphabet(b);
+        complete = for_each_string_n(alpha.data(), alpha.size(), 1, maxLen, [&](std::string const& s) {
+            if (in_short_pool(s, shortLen) || in_exotic_pool(s, exoticLen)) { return true; } // enumerated by the other sweeps
+            pc.str(s, one);
+            ++strs;
+            if ((strs & 0x3FFF) == 0 && r.deadline_passed()) {
+                r.not_exhaustive("deadline");
+                return false;
+            }
+            return true;
+        });
+        if (!complete) { break; }
+    }
+    r.count("base_boundary_strings", strs);
+    return complete;
+}
+
+/// every string of length <= maxLen over the exotic alphabet that is not already a string of the first sweep
+template <typename T>
+bool exotic_strings(mc::Reporter& r, ParseChecker<T>& pc, std::vector<int> const& bases, int maxLen, int shortLen)
+{
+    std::uint64_t strs = 0;
+    bool const done    = for_each_string(exotic, 1, maxLen, [&](std::string const& s) {
+        if (in_short_pool(s, shortLen)) { return true; }
+        pc.str(s, bases);
+        ++strs;
+        if ((strs & 0x3FF) == 0 && r.deadline_passed()) {
+            r.not_exhaustive("deadline");
+            return false;
+        }
+        return true;
+    });
+    r.count("exotic_strings", strs);
+    return done;
+}
+
 template <typename T>
 void job_parse(mc::Reporter& r, int shortLen, bool allBases, long window)
 {
@@ -651,25 +889,10 @@ void job_parse(mc::Reporter& r, int shortLen, bool allBases, long window)
         return true;
     });
     r.count("short_strings", strs);
-    if (done) {
-        std::uint64_t images = 0;
-        for (int b : bases) {
-            std::vector<int> const one{b};
-            auto const li = limit_images<T>(b, shortLen);
-            for (auto const& s : li) { pc.str(s, one); }
-            auto const la = lattice_images<T>(b, window, shortLen);
-            for (auto const& s : la) { pc.str(s, one); }
-            images += li.size() + la.size();
-            if (b == 10 || b == 36) { r.sample(cat(tname<T>(), " base ", b, ": ", li.size(), " limit images e.g. ", show(li[li.size() / 2]), ", ", la.size(), " lattice renderings e.g. ", show(la.back()))); }
-            if (r.deadline_passed()) {
-                r.not_exhaustive("deadline");
-                break;
-            }
-        }
-        r.count("limit_and_lattice_strings", images);
-    }
+    // round 2: the images run in every base 2..36 in the quick tier as well
+    if (done) { images<T>(r, pc, bases_for(true), window, shortLen, true); }
     pc.finish();
-    r.sample(cat(tname<T>(), ": all ", strs, " strings of length <= ", shortLen, " over {1,0,7,9,a,Z,-,+,space,tab,x,/} x bases ", mc::show_seq(bases)));
+    r.sample(cat(tname<T>(), ": all ", strs, " strings of length <= ", shortLen, " over {1,0,7,9,a,Z,-,+,space,tab,x,/} x bases ", mc::show_seq(bases), "; limit/lattice images in all 35 bases"));
 }
 
 /// all strings of length exactly 6 over the 8-character sub-alphabet {1,0,9,a,-,+,space,x}
@@ -693,17 +916,236 @@ void job_parse_len6(mc::Reporter& r)
     r.sample(cat(tname<T>(), ": all ", strs, " strings of length 6 over {1,0,9,a,-,+,space,x} x all 35 bases, e.g. \" -0x1a\", \"+00a91\""));
 }
 
+/// round 2: exotic alphabet (NUL, bytes >= 0x80, \v\f\r\n, range neighbours) and the per-base boundary strings
+template <typename T>
+void job_parse_exotic(mc::Reporter& r, int exoticLen, bool allBases, int boundaryLen)
+{
+    ParseChecker<T> pc(r);
+    auto const bases = bases_for(allBases);
+    if (exotic_strings<T>(r, pc, bases, exoticLen, 4)) { boundary_strings<T>(r, pc, bases_for(true), boundaryLen, 4, exoticLen); }
+    pc.finish();
+    r.sample(cat(tname<T>(), ": all strings of length <= ", exoticLen, " over {1,0,9,a,z,Z,-,+,space,NUL,\\x80,\\xff,\\xb1,\\xe1,\\v,\\f,\\r,\\n,:,[,{,/,@,`} x bases ", mc::show_seq(bases)));
+    r.sample(cat(tname<T>(), ": per base b in 2..36 all strings of length <= ", boundaryLen, " over {digit b-1, digit b (both cases), 1, 0, -, /, :, @, `}, e.g. base 36: ", show(boundary_alphabet(36)), ", base 11: ", show(boundary_alphabet(11))));
+}
+
+/// round 2: the same calls with the input flush against the end of a read-only page followed by an
+/// inaccessible page: a write to the input or a read behind it is a SIGSEGV in every flavour
+template <typename T>
+void job_parse_readonly(mc::Reporter& r, int shortLen, int exoticLen, int boundaryLen, long window, bool imagesAllBases)
+{
+    ParseChecker<T> pc(r);
+    pc.pool.read_only();
+    pc.readOnly = true;
+    struct sigaction sa{};
+    sa.sa_sigaction = ro_segv;
+    sa.sa_flags     = SA_SIGINFO | SA_ONSTACK | SA_NODEFER;
+    sigemptyset(&sa.sa_mask);
+    sigaction(SIGSEGV, &sa, nullptr);
+    sigaction(SIGBUS, &sa, nullptr);
+
+    auto const bases   = bases_for(true);
+    std::uint64_t strs = 0;
+    bool done          = for_each_short_string(shortLen, [&](std::string const& s) {
+        pc.str(s, bases);
+        ++strs;
+        if ((strs & 0x3FF) == 0 && r.deadline_passed()) {
+            r.not_exhaustive("deadline");
+            return false;
+        }
+        return true;
+    });
+    r.count("short_strings", strs);
+    done = done && exotic_strings<T>(r, pc, bases, exoticLen, shortLen);
+    done = done && boundary_strings<T>(r, pc, bases, boundaryLen, shortLen, exoticLen);
+    auto const imageBases = bases_for(imagesAllBases);
+    if (done) { images<T>(r, pc, imageBases, window, shortLen, false); }
+    pc.finish();
+    r.sample(cat(tname<T>(), ": input in a PROT_READ page, last byte at the page end, next page PROT_NONE: strings of length <= ", shortLen, " (first alphabet), <= ", exoticLen, " (exotic), <= ", boundaryLen,
+        " (base boundary) in all 35 bases; limit/lattice images in bases ", mc::show_seq(imageBases)));
+}
+
 template <typename T>
 void add_type(mc::Main& m)
 {
     std::string const T_ = tname<T>();
-    m.job(cat("parse/", T_, "/len4/5-bases"), {"quick"}, [](mc::Reporter& r) { job_parse<T>(r, 4, false, 300); });
+#if !defined(MC_FLAVOUR_SAN)
+    m.job(cat("parse/", T_, "/len4+images/all-bases"), {"quick"}, [](mc::Reporter& r) { job_parse<T>(r, 4, true, 300); });
+#else
+    // the sanitizer build is 10x slower: short strings in five bases, images in all bases
+    m.job(cat("parse/", T_, "/len4/5-bases+images/all-bases"), {"quick"}, [](mc::Reporter& r) { job_parse<T>(r, 4, false, 300); });
+#endif
+    m.job(cat("parse/", T_, "/exotic-len3+boundary-len3/all-bases"), {"quick"}, [](mc::Reporter& r) { job_parse_exotic<T>(r, 3, true, 3); });
+    m.job(cat("parse-ro/", T_, "/len3+exotic2+boundary2/all-bases+images/5-bases"), {"quick"}, [](mc::Reporter& r) { job_parse_readonly<T>(r, 3, 2, 2, 40, false); });
 #if !defined(MC_FLAVOUR_SAN)
     m.job(cat("parse/", T_, "/len5/all-bases"), {"thorough"}, [](mc::Reporter& r) { job_parse<T>(r, 5, true, 70000); });
     m.job(cat("parse/", T_, "/len6-alphabet8/all-bases"), {"thorough"}, [](mc::Reporter& r) { job_parse_len6<T>(r); });
+    m.job(cat("parse/", T_, "/exotic-len4/all-bases+boundary-len5"), {"thorough"}, [](mc::Reporter& r) { job_parse_exotic<T>(r, 4, true, 5); });
+    m.job(cat("parse-ro/", T_, "/len4+exotic3+boundary3+images/all-bases"), {"thorough"}, [](mc::Reporter& r) { job_parse_readonly<T>(r, 4, 3, 3, 5000, true); });
 #else
     m.job(cat("parse/", T_, "/len4/all-bases"), {"thorough"}, [](mc::Reporter& r) { job_parse<T>(r, 4, true, 5000); });
+    m.job(cat("parse/", T_, "/exotic-len3/all-bases+boundary-len4"), {"thorough"}, [](mc::Reporter& r) { job_parse_exotic<T>(r, 3, true, 4); });
+    m.job(cat("parse-ro/", T_, "/len3+exotic3+boundary3+images/all-bases"), {"thorough"}, [](mc::Reporter& r) { job_parse_readonly<T>(r, 3, 3, 3, 1000, true); });
 #endif
+}
+
+/// bool: std::to_chars(bool) is deleted and std::from_chars has no bool overload; tetl must reject it too
+template <typename B>
+concept to_chars_takes = requires(char* p, B b) { etl::to_chars(p, p, b); };
+template <typename B>
+concept to_chars_base_takes = requires(char* p, B b) { etl::to_chars(p, p, b, 10); };
+template <typename B>
+concept from_chars_takes = requires(char const* p, B& b) { etl::from_chars(p, p, b); };
+template <typename B>
+concept from_chars_base_takes = requires(char const* p, B& b) { etl::from_chars(p, p, b, 10); };
+
+inline void job_bool(mc::Reporter& r)
+{
+    std::uint64_t n = 0;
+    auto probe      = [&](bool accepted, char const* subj) {
+        ++n;
+        if (accepted) { r.violation("C10", subj, "bool", "value of type bool", "tetl accepts the call; std::to_chars(bool) is deleted and std::from_chars has no overload for bool (the call is ill-formed)"); }
+    };
+    probe(to_chars_takes<bool>, "to_chars(first,last,value,base)");
+    probe(to_chars_base_takes<bool>, "to_chars(first,last,value,base)");
+    probe(from_chars_takes<bool>, "from_chars(first,last,value,base):ec+value");
+    probe(from_chars_base_takes<bool>, "from_chars(first,last,value,base):ec+value");
+    // the probes themselves work: the same expressions are well-formed for int
+    static_assert(to_chars_takes<int> && to_chars_base_takes<int> && from_chars_takes<int> && from_chars_base_takes<int>);
+    static_assert(to_chars_takes<char8_t> && from_chars_takes<wchar_t>);
+    r.count("evaluations", n);
+    r.count("distinct_nontrivial", n);
+    r.sample("overload probes: etl::to_chars(char*,char*,bool[,int]) and etl::from_chars(char const*,char const*,bool&[,int]) must be ill-formed");
+}
+
+/// round 2: the default arguments (base omitted, pos omitted) are code of their own: nobody passes them
+/// in the sweeps above.  All strings of length <= 3 over {1,0,9,a,-,space} and a small value lattice.
+struct DefaultsStats {
+    std::uint64_t evals{0}, nontrivial{0};
+};
+
+template <typename T>
+void defaults_for(mc::Reporter& r, DefaultsStats& st)
+{
+    using Ref = ref_t<T>;
+    std::string const T_{tname<T>()};
+    constexpr char small[] = {'1', '0', '9', 'a', '-', ' '};
+    InPool pool;
+    for_each_string(small, 0, 3, [&](std::string const& s) {
+        std::size_t const n = s.size();
+        auto const k        = cat(T_, " str=", show(s), " base argument omitted");
+        // from_chars(first,last,value)
+        Ref mv        = Ref(42);
+        T ev          = T(42);
+        auto const mr = std::from_chars(s.data(), s.data() + n, mv);
+        char const* v = pool.view(s);
+        auto const er = etl::from_chars(v, v + n, ev);
+        st.evals += 2;
+        if (mr.ec == std::errc{}) { ++st.nontrivial; }
+        if (code(mr.ec) != code(er.ec) || mv != static_cast<Ref>(ev) || (code(mr.ec) != 2 && er.ptr != v + (mr.ptr - s.data()))) {
+            r.violation("C10", "from_chars(first,last,value,base):ec+value", "default_base", k,
+                cat("tetl: ec=", code_name(code(er.ec)), " value=", show_val(ev), " ptr=first+", show_off(er.ptr, v, n), " | std: ec=", code_name(code(mr.ec)), " value=", show_val(mv), " ptr=first+", mr.ptr - s.data(), " (value preset to 42)"));
+        }
+        // strings::to_integer<T>(str)
+        std::size_t w = 0;
+        while (w < n && c_space(s[w])) { ++w; }
+        Ref tv        = Ref(0);
+        auto const tr = std::from_chars(s.data() + w, s.data() + n, tv);
+        auto const ti = etl::strings::to_integer<T>(etl::string_view{v, n});
+        ++st.evals;
+        if (code(tr.ec) != code(ti.error) || (code(tr.ec) == 0 && (tv != static_cast<Ref>(ti.value) || ti.end != v + (tr.ptr - s.data())))) {
+            r.violation("C10", "strings::to_integer(str,base):error+value", "default_base", k,
+                cat("tetl: error=", code_name(code(ti.error)), " value=", show_val(ti.value), " | reference (skip whitespace, std::from_chars base 10): ", code_name(code(tr.ec)), " value=", show_val(tv)));
+        }
+        // sto*(str), sto*(str,pos): only where std does not throw
+        auto sto = [&](char const* fn, auto ef1, auto ef2, auto mf) {
+            using R = decltype(ef1(etl::string_view{}));
+            R m{};
+            std::size_t mpos = 0;
+            try {
+                m = mf(s, &mpos);
+            } catch (...) {
+                return;
+            }
+            std::size_t epos = 9999;
+            R const e1       = ef1(etl::string_view{v, n});
+            R const e2       = ef2(etl::string_view{v, n}, &epos);
+            st.evals += 3;
+            ++st.nontrivial;
+            if (e1 != m) { r.violation("C10", cat(fn, "(str,pos,base):value"), "default_pos+default_base", k, cat("tetl ", fn, "(str): ", show_val(e1), " | std: ", show_val(m))); }
+            if (e2 != m || epos != mpos) { r.violation("C10", cat(fn, "(str,pos,base):value"), "default_base", k, cat("tetl ", fn, "(str,&pos): ", show_val(e2), " pos=", epos, " | std: ", show_val(m), " pos=", mpos)); }
+        };
+        if constexpr (std::is_same_v<T, int>) {
+            sto("stoi", [](etl::string_view a) { return etl::stoi(a); }, [](etl::string_view a, etl::size_t* p) { return etl::stoi(a, p); }, [](std::string const& a, std::size_t* p) { return std::stoi(a, p); });
+        }
+        if constexpr (std::is_same_v<T, long>) {
+            sto("stol", [](etl::string_view a) { return etl::stol(a); }, [](etl::string_view a, etl::size_t* p) { return etl::stol(a, p); }, [](std::string const& a, std::size_t* p) { return std::stol(a, p); });
+        }
+        if constexpr (std::is_same_v<T, long long>) {
+            sto("stoll", [](etl::string_view a) { return etl::stoll(a); }, [](etl::string_view a, etl::size_t* p) { return etl::stoll(a, p); }, [](std::string const& a, std::size_t* p) { return std::stoll(a, p); });
+        }
+        if constexpr (std::is_same_v<T, unsigned long>) {
+            sto("stoul", [](etl::string_view a) { return etl::stoul(a); }, [](etl::string_view a, etl::size_t* p) { return etl::stoul(a, p); }, [](std::string const& a, std::size_t* p) { return std::stoul(a, p); });
+        }
+        if constexpr (std::is_same_v<T, unsigned long long>) {
+            sto("stoull", [](etl::string_view a) { return etl::stoull(a); }, [](etl::string_view a, etl::size_t* p) { return etl::stoull(a, p); }, [](std::string const& a, std::size_t* p) { return std::stoull(a, p); });
+        }
+        return true;
+    });
+    // to_chars(first,last,value)
+    i128 const lo = std::numeric_limits<Ref>::min();
+    i128 const hi = std::numeric_limits<Ref>::max();
+    std::set<i128> vals;
+    for (i128 x : {i128(0), i128(1), i128(9), i128(10), i128(11), i128(15), i128(16), i128(17), i128(99), i128(100), i128(255), hi, hi - 1, hi / 10}) {
+        for (i128 y : {x, -x, -x - 1}) {
+            if (y >= lo && y <= hi) { vals.insert(y); }
+        }
+    }
+    for (i128 x : vals) {
+        T const v = static_cast<T>(x);
+        char ref[48];
+        auto const mr       = std::to_chars(ref, ref + sizeof ref, static_cast<Ref>(v));
+        std::size_t const n = static_cast<std::size_t>(mr.ptr - ref);
+        mc::GuardedBlock<char> out(n);
+        auto const er = etl::to_chars(out.data(), out.data() + n, v);
+        st.evals += 2;
+        if (x != 0) { ++st.nontrivial; }
+        if (er.ec != etl::errc{} || er.ptr != out.data() + n || std::memcmp(out.data(), ref, n) != 0 || !out.intact()) {
+            r.violation("C10", "to_chars(first,last,value,base)", "default_base", cat(T_, " value=", show_val(v), " base argument omitted, buffer length=", n),
+                cat("tetl: ec=", int(er.ec), " text=", mc::show_chars(out.data(), out.data() + n), " | std: ", mc::show_chars(ref, ref + n)));
+        }
+    }
+}
+
+inline void job_defaults(mc::Reporter& r)
+{
+    DefaultsStats st;
+    std::string cur;
+    auto run = [&](char const* name, auto fn) {
+        cur              = name;
+        mc::Trap const t = mc::guarded([&] { fn(); });
+        if (t != mc::Trap::none) {
+            r.violation(t == mc::Trap::assert_fired ? "C05" : "C02", "from_chars(first,last,value,base):ec+value", cat("default_base/", mc::trap_name(t)), cur, mc::describe_trap(t));
+            r.violation("C10", "from_chars(first,last,value,base):ec+value", cat("default_base/", mc::trap_name(t)), cur, cat("no result: ", mc::describe_trap(t)));
+        }
+    };
+    run("signed char", [&] { defaults_for<signed char>(r, st); });
+    run("unsigned char", [&] { defaults_for<unsigned char>(r, st); });
+    run("char", [&] { defaults_for<char>(r, st); });
+    run("short", [&] { defaults_for<short>(r, st); });
+    run("unsigned short", [&] { defaults_for<unsigned short>(r, st); });
+    run("int", [&] { defaults_for<int>(r, st); });
+    run("unsigned", [&] { defaults_for<unsigned>(r, st); });
+    run("long", [&] { defaults_for<long>(r, st); });
+    run("unsigned long", [&] { defaults_for<unsigned long>(r, st); });
+    run("long long", [&] { defaults_for<long long>(r, st); });
+    run("unsigned long long", [&] { defaults_for<unsigned long long>(r, st); });
+    run("char8_t", [&] { defaults_for<char8_t>(r, st); });
+    run("char16_t", [&] { defaults_for<char16_t>(r, st); });
+    run("char32_t", [&] { defaults_for<char32_t>(r, st); });
+    run("wchar_t", [&] { defaults_for<wchar_t>(r, st); });
+    r.count("evaluations", st.evals);
+    r.count("distinct_nontrivial", st.nontrivial);
+    r.sample("default arguments: from_chars(first,last,value), strings::to_integer<T>(str), sto*(str), sto*(str,&pos) on all 259 strings of length <= 3 over {1,0,9,a,-,space}; to_chars(first,last,value) on a 40-value lattice; 15 types");
 }
 
 } // namespace
@@ -725,6 +1167,15 @@ int main(int argc, char** argv)
     add_type<unsigned long>(m);
     add_type<long long>(m);
     add_type<unsigned long long>(m);
+#endif
+#if !defined(MC_PART) || MC_PART == 3
+    // round 2: the remaining integral types tetl's templates accept (std has no overloads for them)
+    add_type<char8_t>(m);
+    add_type<char16_t>(m);
+    add_type<char32_t>(m);
+    add_type<wchar_t>(m);
+    m.job("api/bool-rejected", {"quick", "thorough"}, job_bool);
+    m.job("api/default-arguments", {"quick", "thorough"}, job_defaults);
 #endif
     return m.run();
 }
